@@ -97,6 +97,12 @@ type Config struct {
 	// FreshCompressor (custom compression only): the caller's CustomCompressor hands out a new
 	// compressor instance on every Compressor() call, as a factory-style implementation would.
 	FreshCompressor bool `json:",omitempty"`
+	// CallerReuses: not a writer option but a way of calling: the caller keeps ONE Header, Schema, Channel,
+	// Message, Attachment and Metadata struct (and one payload buffer and map per kind), refills it for every
+	// call and overwrites it as soon as the call has returned, as a recording loop that avoids allocation does.
+	CallerReuses bool `json:",omitempty"`
+	// CloseTwice: the caller calls Close a second time (the `defer w.Close()` + checked Close() idiom).
+	CloseTwice bool `json:",omitempty"`
 }
 
 const CustomCompression = "vxor"
